@@ -247,3 +247,4 @@ func checkSimple(c Case) (out ev.Outcome) {
 
 func TestProp(t *testing.T)   { ev.Prop(t, false, genCase, check) }
 func TestReplay(t *testing.T) { ev.Replay(t, check) }
+func FuzzC12(f *testing.F)    { ev.FuzzProp(f, false, genCase, check) }
